@@ -303,8 +303,11 @@ class Function(Value):
         )
 
     def to_model(self) -> model.Term:
-        module = self.body.to_model()
-        return model.Func(module.root)
+        # the body is rooted at a dataflow graph: export it as a dataflow region
+        from hugr.model.export import ModelExport
+
+        export = ModelExport(self.body)
+        return model.Func(export.export_region_dfg(self.body.root))
 
 
 @dataclass
